@@ -355,7 +355,7 @@ def check_property(prop, tier="quick", seed=0, jobs=None, write_baseline=False, 
             samples.extend({"contract": r["contract"], "cfg": r["cfg"], **s} for s in r["samples"][:2])
         if r["canaries_bad"]:
             failures.append({**r, "reason": f"canary proved (vacuity): {r['canaries_bad']}"})
-        if r["paths"] - r["paths_aborted"] > 0 and r["paths_covered"] == 0:
+        if r["paths"] - r["paths_aborted"] > 0 and r["paths_covered"] == 0 and r.get("paths_cover_unknown", 0) == 0:
             failures.append({**r, "reason": "no path with a satisfiable path condition (vacuous precondition?)"})
         if r["obligations"] == 0:
             failures.append({**r, "reason": "zero obligations generated"})
